@@ -614,7 +614,9 @@ func (s *State) expectDeposit(e *Expect, kind, from string, amt *big.Int, dst ui
 	}
 	switch {
 	case burnToken == s.mintDenom():
-	case !strings.EqualFold(burnToken, s.mintDenom()):
+	case strings.ToLower(burnToken) != strings.ToLower(s.mintDenom()):
+		// only ASCII letter case is tolerated: a string that merely folds to the denom under Unicode simple case
+		// folding ("uu\u017fdc") is another token
 		e.Conds |= P3Denom
 		e.fail("not-minting-denom", "C08")
 	default:
